@@ -16,7 +16,7 @@ DEMOOR = "mdpax.problems.perishable_inventory.de_moor_single_product.DeMoorSingl
 
 
 def gen_chain(rng, i, tier):
-    kind = ["vi", "rvi", "periodic", "semi", "pi", "vi", "semi"][i % 7]
+    kind = ["vi", "rvi", "periodic", "semi", "pi", "pi", "semi"][i % 7]
     route = "restore" if rng.random() < 0.7 else "load"
     if kind == "pi" and (i // 7) % 2 == 0:
         route = "restore"
@@ -50,6 +50,8 @@ def gen_chain(rng, i, tier):
         new.update(shuffle=0)
     nint = rng.choice([1, 1, 2, 3]) if tier == "quick" else rng.choice([1, 2, 3])
     ks = [rng.randint(1, 6) for _ in range(nint)] + [rng.randint(2, 8)]
+    if kind == "periodic":
+        ks[0] = new["period"]        # interrupt where the ring-buffer index is at its last slot (iteration = period mod period+1)
     conv_mode = (i % 2 == 0 and kind != "pi")
     if conv_mode:
         # the last leg runs to (reported) convergence: the stopping iteration itself must survive the interruptions; the interruption
@@ -63,6 +65,9 @@ def gen_chain(rng, i, tier):
         ck["f"] = rng.choice([1, 2])
         ks[0] = ck["f"]
         new.update(budget=5, reset=0, gamma=rng.choice(["9/10", "99/100"]))
+        if i % 7 == 5:
+            # evaluations restart from the problem's initial values and are cut off by the budget: their result depends on the restart point
+            new.update(budget=20, reset=1, gamma="99/100")
         if route == "restore":
             # Forest with 8 states needs 7 policy-iteration steps at these discount factors, so the interruption falls before convergence
             prob = {"op": "shipped", "id": f"p{i}", "target": FOREST, "kwargs": {"S": 8, "p": 0.125, "r1": 6.0, "r2": 3.0}}
@@ -79,7 +84,10 @@ def run_chain(ch, base):
         if dp.get("conv") == "true" and int(dp["iter"]) >= 2:
             r2 = random.Random(ch["rseed"])
             nstar = int(dp["iter"])
-            cuts = sorted(set(r2.randint(1, nstar - 1) for _ in range(len(ks) - 1)))
+            cuts = set(r2.randint(1, nstar - 1) for _ in range(len(ks) - 1))
+            if ch["kind"] == "periodic" and new["period"] < nstar:
+                cuts.add(new["period"])
+            cuts = sorted(cuts)
             ks = [b - a for a, b in zip([0] + cuts, cuts)] + [80]
             ch["ks"] = ks
             ch["nstar"] = nstar
